@@ -1018,3 +1018,47 @@ Lemma binning_additive2 : forall (xstart xsize : Q) (xcount : N) (ystart ysize :
   let ay := new_axis ystart ysize ycount in
   leq2 (binning2 ax ay (xs ++ ys)) (zip_add2 (binning2 ax ay xs) (binning2 ax ay ys)).
 Proof. intros. apply binning2_app. Qed.
+
+(* ---- the cells are the specification's values (two dimensions) ---- *)
+
+Lemma eqb_idx : forall (z : Z) (i : nat), (0 <= z)%Z -> Z.eqb z (Z.of_nat i) = Nat.eqb (Z.to_nat z) i.
+Proof.
+  intros z i Hz. destruct (Z.eqb_spec z (Z.of_nat i)); destruct (Nat.eqb_spec (Z.to_nat z) i); try reflexivity; lia.
+Qed.
+
+Lemma spec_sel2 : forall ax ay i j xs, 0 < a_size ax -> (2 <= a_bins ax)%Z -> 0 < a_size ay -> (2 <= a_bins ay)%Z ->
+  map snd (filter (fun e : Z * Z * Q => Z.eqb (fst (fst e)) (Z.of_nat i) && Z.eqb (snd (fst e)) (Z.of_nat j))
+            (map (fun e : Q * Q * Q => (spec_index ax (fst (fst e)), spec_index ay (snd (fst e)), snd e)) xs))
+  = map snd (filter (fun e : Q * Q * Q => Nat.eqb (idx ax (fst (fst e))) i && Nat.eqb (idx ay (snd (fst e))) j) xs).
+Proof.
+  intros ax ay i j xs Hzx Hbx Hzy Hby. induction xs as [| e xs IH]; [reflexivity |].
+  cbn [map filter fst snd].
+  rewrite <- (get_index_is_spec ax (fst (fst e)) Hzx Hbx). rewrite <- (get_index_is_spec ay (snd (fst e)) Hzy Hby).
+  assert (Hrx := get_index_range ax (fst (fst e)) Hbx). assert (Hry := get_index_range ay (snd (fst e)) Hby).
+  rewrite (eqb_idx (get_index ax (fst (fst e))) i) by lia. rewrite (eqb_idx (get_index ay (snd (fst e))) j) by lia.
+  fold (idx ax (fst (fst e))). fold (idx ay (snd (fst e))).
+  destruct (Nat.eqb (idx ax (fst (fst e))) i && Nat.eqb (idx ay (snd (fst e))) j).
+  - cbn [map snd]. rewrite IH. reflexivity.
+  - exact IH.
+Qed.
+
+Lemma values2_are_spec : forall (xstart xsize : Q) (xcount : N) (ystart ysize : Q) (ycount : N)
+  (xs : list (Q * Q * Q)), 0 < xsize -> 0 < ysize ->
+  let ax := new_axis xstart xsize xcount in
+  let ay := new_axis ystart ysize ycount in
+  leq2 (binning2 ax ay xs) (spec_values2 ax ay xs).
+Proof.
+  intros xstart xsize xcount ystart ysize ycount xs Hzx Hzy ax ay.
+  assert (Hbx : (2 <= a_bins ax)%Z) by (unfold ax; cbn [new_axis a_bins]; lia).
+  assert (Hby : (2 <= a_bins ay)%Z) by (unfold ay; cbn [new_axis a_bins]; lia).
+  unfold spec_values2. apply leq2_of_nth.
+  - rewrite binning2_length, map_length, zrange_length. reflexivity.
+  - intros i Hi. rewrite binning2_length in Hi. unfold zrange.
+    rewrite (nth_map_zrange_from _ [] (Z.to_nat (a_bins ax)) 0%Z i Hi). rewrite Z.add_0_l.
+    rewrite binning2_row by exact Hi. apply leq_of_nth.
+    + rewrite binning1_length, map_length, zrange_length. reflexivity.
+    + intros j Hj. rewrite binning1_length in Hj.
+      rewrite (nth_map_zrange_from _ 0 (Z.to_nat (a_bins ay)) 0%Z j Hj). rewrite Z.add_0_l.
+      rewrite binning1_nth by exact Hj. rewrite sel_selx.
+      rewrite (spec_sel2 ax ay i j xs Hzx Hbx Hzy Hby). reflexivity.
+Qed.
